@@ -36,14 +36,17 @@ Definition no_offer (a : st) (s : svc) (o : svcobj) : Prop :=
              end
   end.
 
-Lemma no_offer_anti t a a' s o : Inv a -> Inv a' -> ext t a a' -> no_offer a s o -> no_offer a' s o.
+Lemma no_offer_covers a a' s o : Inv a -> Inv a' -> covers a a' -> no_offer a s o -> no_offer a' s o.
 Proof.
   intros Ia Ia' E. unfold no_offer. destruct (o_want o) as [|d|]; [|auto|auto].
-  - destruct (o_want_pool o); [apply (from_pool_none_anti t a a' Ia Ia' E)|apply (allocate_none_anti t a a' Ia Ia' E)].
+  - destruct (o_want_pool o); [apply (from_pool_none_anti a a' Ia Ia' E)|apply (allocate_none_anti a a' Ia Ia' E)].
   - unfold wips_ok. destruct (match alloc_fam d with Some f => sfam_eqb f (r_fam (o_req o)) | None => false end); [|auto].
     cbn [andb]. destruct (assign_check a' s (o_req o) d) as [p'|e'] eqn:E'; [|auto].
-    rewrite (assign_check_anti t a a' Ia Ia' E s (o_req o) d p' E'). auto.
+    rewrite (assign_check_anti a a' Ia Ia' E s (o_req o) d p' E'). auto.
 Qed.
+
+Lemma no_offer_anti t a a' s o : Inv a -> Inv a' -> ext t a a' -> no_offer a s o -> no_offer a' s o.
+Proof. intros Ia Ia' E. apply no_offer_covers; [exact Ia|exact Ia'|eapply ext_covers; eassumption]. Qed.
 
 Definition minv (a : st) : Prop := Inv a /\ PoolCoh a.
 Definition MI (x y : st) : Prop := minv x -> minv y.
